@@ -1,0 +1,25 @@
+//go:build verif
+
+package graphql
+
+import "sync/atomic"
+
+// VerifCounters are step counters read by the verification harness (build tag `verif`):
+//
+//	0 collectInto calls                         (plan.go)
+//	1 planSelectionSetsLocked calls             (plan.go)
+//	2 findConflict calls                        (overlap rule)
+//	3 collectConflictsBetweenFieldsAndFragment  bodies executed after the memo check
+//	4 collectConflictsBetweenFragments          bodies executed after the memo check
+//	5 collectConflictsBetweenFieldsAndFragment  calls
+//	6 collectConflictsBetweenFragments          calls
+var VerifCounters [8]int64
+
+func verifCount(i int) { atomic.AddInt64(&VerifCounters[i], 1) }
+
+// VerifResetCounters sets every counter to zero.
+func VerifResetCounters() {
+	for i := range VerifCounters {
+		atomic.StoreInt64(&VerifCounters[i], 0)
+	}
+}
